@@ -669,7 +669,7 @@ pub async fn dg_sender(sh: Sh, mux: Arc<Mux>, ep: u8, seed: u64, plans: Vec<DgPl
             target_port: p.port,
             data: Bytes::from(dg_payload(seed, p.id, p.payload_len)),
         };
-        sh.api(ep, 0, Api::DgSendCall { id: p.id });
+        sh.api(ep, 0, Api::DgSendCall { id: p.id, host_len: p.host_len });
         let r = mux.send_datagram(d).await;
         sh.api(ep, 0, Api::DgSendRet { id: p.id, res: match r { Ok(()) => "Ok".into(), Err(e) => err_name(&e) } });
     }
